@@ -25,9 +25,16 @@ def _key(x):
     return x if isinstance(x, str) else json.dumps(x, sort_keys=True, default=repr)
 
 
-def bfs(ctx, modname, inits, depth, fname="expand", prop=None, max_states=None, differential=True):
-    """Returns stats dict. Violations are added to ctx."""
+def bfs(ctx, modname, inits, depth, fname="expand", prop=None, max_states=None, differential=True, soft_keys=None):
+    """Returns stats dict. Violations are added to ctx.
+
+    A state carrying a violation is not extended (its futures are suspect) - unless every violation
+    key of that state is *soft*: listed as a known finding of this property (or in ``soft_keys``),
+    so that a recorded finding does not shrink the explored space."""
     prop = prop or ctx.prop
+    soft = set(soft_keys or ())
+    soft |= {k.get("fingerprint") for k in core.load_known() if k.get("property") == prop and k.get("status") == "known"}
+    last_new = None
     seen = {}  # (init idx, canon) -> (hist, full)
     frontier = [{"init": init, "hist": [], "outs": [], "_i": i} for i, init in enumerate(inits)]
     states = transitions = traces = 0
@@ -72,11 +79,13 @@ def bfs(ctx, modname, inits, depth, fname="expand", prop=None, max_states=None, 
             if len(ctx.samples) < 4 and it["hist"] and (len(it["hist"]) == d):
                 if len(ctx.samples) < d:
                     ctx.samples.append({"init": it["init"] if len(_key(it["init"])) < 400 else "init#%d" % it["_i"], "history": it["hist"], "outcomes": it["outs"] + [r.get("out", "ok")]})
-            if d < depth and not r.get("terminal") and not r.get("viols"):
+            hard = [v for v in (r.get("viols") or ()) if v["key"] not in soft]
+            if d < depth and not r.get("terminal") and not hard:
                 outs = it["outs"] + ([r.get("out", "ok")] if it["hist"] else [])
                 for op in r["ops"]:
                     nxt.append({"init": it["init"], "hist": it["hist"] + [op], "outs": outs, "_i": it["_i"]})
         levels.append({"depth": d, "executed": len(frontier), "new_states": new})
+        last_new = new
         ctx.log("depth %d: executed %d histories, %d new canonical states, next frontier %d" % (d, len(frontier), new, len(nxt)))
         if max_states and states >= max_states and nxt and d < depth:
             capped = True
@@ -85,7 +94,8 @@ def bfs(ctx, modname, inits, depth, fname="expand", prop=None, max_states=None, 
             break
         frontier = nxt
     else:
-        closure = not frontier
+        # the depth bound was reached: closed only if the last level found no new canonical state
+        closure = last_new == 0
     return {
         "states": states,
         "transitions": transitions,
